@@ -162,6 +162,31 @@ def explore(ctx):
             if not okk:
                 failures.append({'kind': 'spec', 'what': 'text output of %s is %s' % (lits[i][0], m.group(2)), 'payload': {'query': '* | json  (-o logfmt)', 'input_lines': [tl[i]]}})
                 break
+    # 6b. a number handed to a second extraction (`parse ... from x`, `split(x)`): the row is refused with a message, or the
+    # number comes back as it was - never a shortened rendering of it (the text modes' two decimals are for printing only)
+    sub = [i for i in range(len(lits)) if not re.match(r'^-?0\d', lits[i][0])][:600 if quick else 6000]
+    fl = ['{"i": %d, "x": %s}\n' % (i, lits[i][0]) for i in sub] + ['{"i": %d, "x": %s}\n' % (len(lits) + k, t) for k, t in enumerate(('3.14159', '0.000123', '-2.71828', '1234.5678', '2.5e-7'))]
+    fwant = {i: want[i] for i in sub}
+    fwant.update({len(lits) + k: aggoracle.from_float(float(t)) for k, t in enumerate(('3.14159', '0.000123', '-2.71828', '1234.5678', '2.5e-7'))})
+    for q, get in (('* | json | parse "*" from x as y | fields i, y', lambda r: r.get('y')),
+                   ('* | json | split(x) as y | fields i, y', lambda r: (r.get('y') or [None])[0] if isinstance(r.get('y'), list) and len(r.get('y')) == 1 else r.get('y'))):
+        o = aglib.run_impl_one(q, ''.join(fl).encode('utf8'), 'json')
+        if b'panicked' in o['err'] or o['rc'] not in (0,):
+            failures.append({'kind': 'spec', 'what': 'second extraction of a number: run failed rc=%s' % o['rc'], 'payload': {'query': q, 'input_lines': fl[:5], 'stderr': o['err'].decode('utf8', 'replace')[-300:]}})
+            continue
+        for l in o['out'].decode('utf8', 'replace').split('\n'):
+            if not l.strip():
+                continue
+            try:
+                r = aglib.json_value(json.loads(l))
+            except ValueError:
+                continue
+            evaluations += 1
+            i = r.get('i')
+            if i in fwant and 'y' in r and not aglib.same(get(r), fwant[i]):
+                failures.append({'kind': 'spec', 'what': 'the number %s handed to a second extraction came back as %r' % (show(fwant[i]), show(get(r))),
+                                 'payload': {'query': q, 'input_lines': [x for x in fl if x.startswith('{"i": %d,' % i)]}})
+                break
     # 7. model correspondence on a sample (the model's own decimal->double and from_string)
     cases = []
     for i in range(0, len(lits), 3 if quick else 1):
